@@ -318,3 +318,37 @@ func sleepingHarness() bool {
 	}
 	return false
 }
+
+// Quiesce waits until no gtree goroutine of an earlier call can still act: every remaining one
+// is gone or blocked forever (two consecutive observations). It does not judge; it keeps a
+// late pipeline goroutine of one case from touching the next case's jail or working directory.
+// baseline is runtime.NumGoroutine() taken before the call.
+func (m *LeakMonitor) Quiesce(baseline int) {
+	if runtime.NumGoroutine() <= baseline {
+		return
+	}
+	deadline := time.Now().Add(10 * time.Second)
+	wait := 200 * time.Microsecond
+	stable := 0
+	for time.Now().Before(deadline) {
+		gs := m.gtreeNew()
+		if len(gs) == 0 {
+			return
+		}
+		if allBlocked(gs) {
+			stable++
+			if stable >= 3 {
+				for i := range gs {
+					m.known[gs[i].ID] = true
+				}
+				return
+			}
+		} else {
+			stable = 0
+		}
+		time.Sleep(wait)
+		if wait < 20*time.Millisecond {
+			wait *= 2
+		}
+	}
+}
